@@ -464,6 +464,7 @@ package xmpp
 //@   ghost negErr bool = false
 //@   ghost lastData interface{}
 //@   ghost first bool = true
+//@   ghost newRW io.ReadWriter
 //@   callsite foreign#*
 //@     preserves s.state, s.negotiated, s.features, s
 //@   callsite type:Negotiator#1
@@ -473,8 +474,9 @@ package xmpp
 //@     after: negErr = ret3 != nil
 //@     after: lastData = ret2
 //@     after: first = false
+//@     after: newRW = ret1
 //@   callsite newConn#2
-//@     assert[C01,C02,C04] arg0 == rw && rw != nil
+//@     assert[C01,C02,C04] arg0 == newRW && newRW != nil
 //@     preserves s.state, s.negotiated, s.features
 //@   callsite encoding/xml.NewDecoder#2
 //@     assert[C01,C02,C04] arg0 == s.conn
@@ -488,7 +490,6 @@ package xmpp
 //@     invariant[C01,C02,C04] first ==> data == nil
 //@     invariant[C01,C02,C04] !sawFeatures(data) ==> forall k string :: !has(s.negotiated, k)
 //@     invariant[C01,C02,C04] !first ==> data == lastData
-//@     invariant[C01,C02,C04] !first && rw != nil ==> forall k string :: !has(s.negotiated, k)
 //@   loop 2
 //@     invariant[C01,C02,C04] s.state & state == state && s.features != nil && s.negotiated != nil
 //@   loop 3
